@@ -152,6 +152,49 @@ package nfsv4
 //@   ensures inv: (newShareAccess & ^old(*shareAccess) & 3) == 0 ==> scInv(sc, newShareAccess)
 //@   ensures underlying-opens-read: b2i(sc.readers > 0) == b2i(old(sc.readers) > 0) - b2i(hasR(r0))
 //@   ensures underlying-opens-write: b2i(sc.writers > 0) == b2i(old(sc.writers) > 0) - b2i(hasW(r0))
+//@   ghostset unsettled[nil] = old(unsettled(nil)) + b2i(r0 != 0)
+
+// Every non-empty result of downgrade is a close of the underlying leaf that
+// is owed. unsettled(nil): closes owed by this call so far; vclosed(nil):
+// VirtualClose calls made by this call. The owed close is queued in a
+// leavesToClose, and whoever owns that list closes every queued entry once.
+//@ ghost map unsettled(ref) int zero
+//@ ghost map vclosed(ref) int zero
+//@ stub (pkg/filesystem/virtual.Leaf).VirtualClose
+//@   modifies vclosed[nil]
+//@   ensures vclosed(nil) == old(vclosed(nil)) + 1
+
+//@ func (*leavesToClose).closeAll
+//@   props C18
+//@   loop 0 invariant vclosed(nil) == old(vclosed(nil)) + rangeindex + 1 && rangeindex >= -1 && rangeindex < len(ll.leaves) && ll == old(ll) &&
+//@             (forall k ref :: k != nil ==> vclosed(k) == old(vclosed(k)))
+//@   modifies vclosed[nil]
+//@   ensures every-queued-leaf-is-closed-once: vclosed(nil) == old(vclosed(nil)) + len(ll.leaves)
+
+//@ func (*nfs40OpenOwnerFileState).downgradeShareAccess
+//@   props C18
+//@   requires scInv(oofs.shareCount, *shareAccess) && *shareAccess <= 3 && newShareAccess <= 3
+//@   ensures owed-close-is-queued: len(ll.leaves) - old(len(ll.leaves)) == unsettled(nil) - old(unsettled(nil))
+//@ func (*nfs41OpenOwnerFileState).downgradeShareAccess
+//@   props C18
+//@   requires scInv(oofs.shareCount, *shareAccess) && *shareAccess <= 3 && newShareAccess <= 3
+//@   ensures owed-close-is-queued: len(ll.leaves) - old(len(ll.leaves)) == unsettled(nil) - old(unsettled(nil))
+
+// The completion callbacks of READ/WRITE/SETATTR give back the share
+// reservation they cloned; if that was the last one, the leaf is closed.
+// (The NFSv4.0 counterpart also runs the client expiry in enter()/release(),
+// which closes leaves of other clients; it is not under this contract.)
+//@ func (*sequenceState).getOpenedLeafWithRegularStateID$1
+//@   props C18
+//@   assume scInv(oofs.shareCount, clonedShareAccess) && clonedShareAccess <= 3 -- established by shareCount.clone in the enclosing function before this callback is handed out
+//@   ensures every-owed-close-happens: vclosed(nil) == unsettled(nil)
+
+// The pool forgets a file, and with it its lock table, only when the last
+// user closes it.
+//@ func (*OpenedFile).Close
+//@   props C18 C20
+//@   at call delete#1 assert only-the-last-user-drops-the-lock-table: of.useCount == 0
+//@   ensures one-use-less: of.useCount == old(of.useCount) - 1
 
 //@ func (*shareCount).clone
 //@   props C18
